@@ -130,7 +130,7 @@ func Rotate(db clickhouse.Conn, clusterName string, distributed bool, days []Rot
 	if err != nil {
 		return err
 	}
-	err = storagePolicyUpdate(db, clusterName, distributed, storagePolicy, "metrics_15s", "metrics_15s")
+	err = storagePolicyUpdate(db, clusterName, distributed, storagePolicy, "metrics_15s_storage_policy", "metrics_15s")
 	if err != nil {
 		return err
 	}
